@@ -42,6 +42,10 @@ func ResolveRef(root interface{}, ref *Ref) (*Schema, error) {
 	case Schema:
 		return &sch, nil
 	case *Schema:
+		if sch == nil {
+			// the pointer ends at a member the typed document does not hold (e.g. an absent "not")
+			return nil, fmt.Errorf("%q designates nothing in the document: %w", ref.String(), ErrSpec)
+		}
 		return sch, nil
 	case map[string]interface{}:
 		newSch := new(Schema)
